@@ -233,7 +233,40 @@ func marshalDispatchOne(mt *mtypes.MType, pos *position, fl *funcList, toUnsup b
 	if !reflect.DeepEqual(log, wantCalls) {
 		return fmt.Sprintf("calls %v, documented order gives %v", log, wantCalls)
 	}
+	// the same caller function list passed in other spellings (next to pre-joined option sets that carry
+	// unrelated non-boolean options) must dispatch identically
+	if len(opts) == 1 {
+		for si, sh := range optionShapes(opts[0], false) {
+			mtypes.Reset()
+			if fl.setup != nil {
+				fl.setup()
+			}
+			if toUnsup {
+				mtypes.ToScript = &mtypes.Script{Ret: 2}
+			}
+			got2, err2 := jsonv2.Marshal(pos.build(mt.Type), sh...)
+			if err2 != nil || string(got2) != string(got) || !reflect.DeepEqual(append([]mtypes.Call(nil), mtypes.Log...), log) {
+				return fmt.Sprintf("option spelling #%d of the same function list: output %q err=%v calls %v; passed alone: %q calls %v", si+1, got2, err2, mtypes.Log, got, log)
+			}
+		}
+	}
 	return ""
+}
+
+// optionShapes returns other spellings of passing the single option o: followed / preceded by a pre-joined
+// option set holding an unrelated non-boolean option, pre-joined itself, next to a boolean-only joined set.
+func optionShapes(o jsonv2.Options, unmarshal bool) [][]jsonv2.Options {
+	var other jsonv2.Options = jsonv2.WithUnmarshalers(jsonv2.UnmarshalFunc(func([]byte, *chan int) error { return nil }))
+	if unmarshal {
+		other = jsonv2.WithMarshalers(jsonv2.MarshalFunc(func(chan int) ([]byte, error) { return nil, nil }))
+	}
+	return [][]jsonv2.Options{
+		{o, jsonv2.JoinOptions(other)},
+		{jsonv2.JoinOptions(other), o},
+		{jsonv2.JoinOptions(o)},
+		{o, jsonv2.JoinOptions(jsonv2.RejectUnknownMembers(false), jsonv2.FormatNilSliceAsNull(false))},
+		{jsonv2.JoinOptions(o, other), jsonv2.JoinOptions(other)},
+	}
 }
 
 // ---- unmarshal dispatch ----
@@ -324,6 +357,16 @@ func unmarshalDispatch(r *evid.Run) {
 						}
 						if !reflect.DeepEqual(log, want) {
 							return fmt.Sprintf("calls %v, documented order gives %v", log, want)
+						}
+						if len(opts) == 1 {
+							for si, sh := range optionShapes(opts[0], true) {
+								mtypes.Log = mtypes.Log[:0]
+								ptr2 := up.build(mt.Type)
+								err2 := jsonv2.Unmarshal([]byte(up.embed(in)), ptr2, sh...)
+								if err2 != nil || !reflect.DeepEqual(append([]mtypes.Call(nil), mtypes.Log...), log) {
+									return fmt.Sprintf("option spelling #%d of the same function list: err=%v calls %v; passed alone: calls %v", si+1, err2, mtypes.Log, log)
+								}
+							}
 						}
 						return ""
 					}
